@@ -108,7 +108,7 @@ def rrsig(rng):
     for _ in range(2):
         seconds = rng.choice([0, 1, 2 ** 31 - 1, 2 ** 31, 2 ** 32 - 2, rng.randrange(2 ** 32 - 1), 1700000000])
         times.append(seconds)
-    tag = rng.randrange(65536)
+    tag = rng.choice([0, 1, 255, 256, 65535, rng.randrange(65536)])
     signer = labels(rng)
     signature = rbytes(rng, pick_len(rng, 0, 300))
     zones = [UTC, UTC, datetime.timezone(datetime.timedelta(hours=2)), datetime.timezone(datetime.timedelta(hours=-5)),
